@@ -10,6 +10,25 @@ import functools
 import icontract
 
 _installed = []
+FRESH_THREAD_EVERY = 0      # set by the "thread" environment variant: every n-th monitored call in a new thread
+_calls = [0]
+
+
+def _in_fresh_thread(fn, args, kwargs):
+    import threading
+    box = {}
+
+    def target():
+        try:
+            box["result"] = fn(*args, **kwargs)
+        except BaseException as exc:      # noqa: B902 - re-raised in the calling thread
+            box["error"] = exc
+    t = threading.Thread(target=target, name="verif-fresh")
+    t.start()
+    t.join()
+    if "error" in box:
+        raise box["error"]
+    return box.get("result")
 
 
 class ContractError(Exception):
@@ -70,18 +89,24 @@ def install(owner, name, post=None, snapshots=None, pre=None, counter=None, ctx=
     func = original
     label = counter or ("%s.%s" % (getattr(owner, "__name__", owner), name))
     if post is not None:
-        func = icontract.ensure(_positional_adapter(original, post), error=ContractError)(func)
+        func = icontract.ensure(_positional_adapter(original, post), error=ContractError, enabled=True)(func)
     if snapshots:
         for snap_name, capture in snapshots.items():
-            func = icontract.snapshot(_positional_adapter(original, capture), name=snap_name)(func)
+            func = icontract.snapshot(_positional_adapter(original, capture), name=snap_name, enabled=True)(func)
     if pre is not None:
-        func = icontract.require(_positional_adapter(original, pre), error=ContractError)(func)
+        func = icontract.require(_positional_adapter(original, pre), error=ContractError, enabled=True)(func)
     decorated = func
 
     @functools.wraps(original)
     def counted(*args, **kwargs):
         if ctx is not None:
             ctx.count("contract:" + label)
+        if FRESH_THREAD_EVERY and _calls.__setitem__(0, _calls[0] + 1) is None and _calls[0] % FRESH_THREAD_EVERY == 0:
+            # "thread" environment variant: this call is made from a thread that has never called into the
+            # library before (its first call there), and the monitor evaluates it as usual
+            if ctx is not None:
+                ctx.count("environment: monitored call made from a fresh thread")
+            return _in_fresh_thread(decorated, args, kwargs)
         return decorated(*args, **kwargs)
 
     counted.__verif_original__ = original
